@@ -841,7 +841,8 @@ func c14Gate(c *Check) {
 				return false
 			}
 			n++
-			if _, f := lf.Reach(Query{From: []Pt{lf.Entry()}, Inclusive: true, Target: isPt(cbs), Avoid: isPt(auths)}); f || len(auths) != 1 {
+			if w, f := lf.Reach(Query{From: []Pt{lf.Entry()}, Inclusive: true, Target: isPt(cbs), Avoid: isPt(auths)}); f || len(auths) != 1 {
+				dbgf("C14.R7 reach-avoid found=%v auths=%d %s", f, len(auths), lf.Describe(w))
 				okAll = false
 				return false
 			}
@@ -850,7 +851,8 @@ func c14Gate(c *Check) {
 					eo := errVarAssigned(ci, auths[0].Node(), call)
 					if eo == nil {
 						okAll = false
-					} else if _, f := lf.ReachRefined(auths[0], eo, false, false, isPt(cbs), nil); f {
+					} else if w, f := lf.ReachRefined(auths[0], eo, false, false, isPt(cbs), nil); f {
+						dbgf("C14.R7 refined path %s", lf.Describe(w))
 						okAll = false
 					}
 				}
